@@ -249,6 +249,12 @@ def handle (op : String) (args : List String) : Option String :=
     let s ← stream args
     let cfg2 := cfg.applyDefaults defs
     some (ctlOut ((srpcBuild cfg2).map (·.handles s)) cfg2.validate)
+  | "srpclk" => do
+    -- stream/srpc/server/lookup.NewController (NewServerWithMux)
+    let cfg : SrpcLookupConfig := ⟨← kvBytesList args "peers", ← kvBytesList args "protos", ← kvBytes args "srvid"⟩
+    let s ← stream args
+    let v := (parsePeerIDs false cfg.peerIds).isSome && (parseProtocolIDs false cfg.protocolIds).isSome
+    some (ctlOut ((srpcLookupBuild cfg).map (·.handles s)) v)
   | "srpcraw" => do
     let srv : SrpcServer := ⟨← kvBytesList args "protos", ← kvBytesList args "peers", ← kvBool args "dis"⟩
     let s ← stream args
@@ -290,6 +296,27 @@ def handle (op : String) (args : List String) : Option String :=
     let ps ← kvBytesList args "prefixes"
     let sid ← kvBytes args "sid"
     some s!"ok a={bit (invokerAnswers ps sid)} seen={optBytes (invokerSeen ps sid)}"
+  | "rpcclient" => do
+    let ps ← kvBytesList args "prefixes"
+    let sid ← kvBytes args "sid"
+    some s!"ok a={bit (clientAnswers ps sid)} seen={optBytes (prefixClientSeen ps sid)}"
+  | "rpcclientcfg" => do
+    let cfg ← kvBytesList args "cfg"
+    let sid ← kvBytes args "sid"
+    some s!"ok a={bit (clientCtlAnswers cfg sid)} fwd={bit (clientCtlSeen cfg sid).isSome}"
+  | "accessclient" => do
+    let c : AccessClient := ⟨← kvBool args "re", ← kvBool args "sre"⟩
+    let sid ← kvBytes args "sid"
+    let srv ← kvBytes args "srv"
+    let rem := kvBool args "rem"
+    let srem := kvBool args "srem"
+    let ev (r s : Bool) := c.answers (oracle sid r) (oracle srv s) sid srv
+    let needRe := rem.isNone && ((ev true true != ev false true) || (ev true false != ev false false))
+    if needRe then some s!"need re subj={hexOrDash sid}" else
+    let r := rem.getD false
+    let needS := srem.isNone && (ev r true != ev r false)
+    if needS then some s!"need sre subj={hexOrDash srv}" else
+    some s!"ok a={bit (ev r (srem.getD false))}"
   | "http" => do
     let c : HttpCtl := ⟨← kvBytesList args "prefixes", ← kvBool args "strip", ← kvBool args "re"⟩
     let path ← kvBytes args "path"
@@ -302,7 +329,7 @@ def handle (op : String) (args : List String) : Option String :=
   | "mux" => do
     let m ← kvBytes args "method"
     match kvBytes args "pat" with
-    | none => some s!"need mux method={hexOrDash (muxMethod m)}"
+    | none => some s!"need mux method={hexOrDash (muxMethod m)} host={hexOrDash (muxHost (← kvBytes args "uhost"))}"
     | some pat => some s!"ok a={bit (muxAnswers pat)}"
   | "csp" => do
     let id ← kvBytes args "id"
@@ -323,6 +350,28 @@ def handle (op : String) (args : List String) : Option String :=
     let evs ← (kv args "evs").bind parseEvEs
     let r := runSync {} evs
     some s!"ok msgs={showMsgs r.1} end={showEnd r.2}"
+  | "resolverview" => do
+    -- what the client-side resolver holds after the stream of the history `evs`
+    let evs ← (kv args "evs").bind parseEvs
+    let v := resolverView {} (run evs).2
+    some s!"ok has={bit v.hasVal} idle={bit v.idle}"
+  | "runends" => do
+    -- `cancel` / `fail`: a number, or `-` for "never"
+    let evs ← (kv args "evs").bind parseEvEs
+    let optNat (k : String) : Option (Option Nat) :=
+      match kv args k with
+      | some "-" => some none
+      | some t => t.toNat?.map some
+      | none => none
+    let c ← optNat "cancel"
+    let f ← optNat "fail"
+    let r := runEnds evs c f
+    let e := match r.2 with
+      | .open => "none"
+      | .resolverErr x => showEnd (some x)
+      | .canceled => "c"
+      | .sendFailed => "send"
+    some s!"ok msgs={showMsgs r.1} end={e}"
   | "placed" => do
     let r : Req := ⟨← kvBytes args "sid", ← kvBytes args "srv"⟩
     let cb ← (kv args "cb").bind cbOf
